@@ -229,6 +229,8 @@ def gen_emu_case(r, res):
     c = MarkCase()
     c.sysd, c.events, c.per_thread, c.truth = sysd, w.events, per_thread, truth
     c.illegal = bool(w.illegal) or bool(illegal_ev)
+    c.conflict = conflict
+    c.spec_ok = (w.expected() == "ok")      # the thread automaton's own verdict (all steps legal, all dead)
     return c
 
 
@@ -374,6 +376,11 @@ def run_emu_cases(res, prep, cases):
             continue
         dis = emu_lib.compare(res, "c17", c.sysd, c.events, mres, (v, ft, tl, err))
         probs = []
+        # independent of the Lean model: consistent definitions and only legal events (values pushed,
+        # popped in order, set; any value may repeat) must be emulated
+        if v == "reject" and not c.illegal and getattr(c, "conflict", None) is None and getattr(c, "spec_ok", False):
+            probs.append("a legal mark history with consistent definitions is refused: " +
+                         " | ".join(l for l in err.split("\n") if "ERROR" in l)[:300])
         if v == "ok":
             probs = oracle_marks(c, tl)
             # PCF: 100+type declared with the title; labels registered (merged) present
